@@ -181,11 +181,14 @@ func (t *lockTxn) Abort() error {
 // ------------------------------------------------------------------ environment
 
 type env struct {
-	kind   string
-	plain  *kvstore.Store
-	reject *rejectStore
-	fs     *keyvalue.FS
-	slots  [2]hackpadfs.File
+	kind     string
+	plain    *kvstore.Store
+	reject   *rejectStore
+	fs       *keyvalue.FS
+	slots    [2]hackpadfs.File
+	slotPath [2]string
+	slotSeq  [2]int // value of nsSeq when the slot's handle was opened
+	nsSeq    int    // number of namespace-level steps applied so far
 }
 
 func newEnv(kind string, failAt int) (*env, error) {
@@ -250,6 +253,9 @@ func (e *env) fired() string {
 // apply runs one step; handle steps keep their handle in a slot.
 func (e *env) apply(s Step) ops.Res {
 	if !strings.HasPrefix(s.K, "h") {
+		if mutatingStep(s.K) {
+			e.nsSeq++
+		}
 		return ops.ApplyFS(e.fs, s.Op)
 	}
 	var res ops.Res
@@ -264,6 +270,8 @@ func (e *env) apply(s Step) ops.Res {
 			res.Err = err
 			if err == nil {
 				e.slots[s.Slot] = nf
+				e.slotPath[s.Slot] = s.P
+				e.slotSeq[s.Slot] = e.nsSeq
 			} else {
 				e.slots[s.Slot] = nil
 			}
@@ -287,6 +295,11 @@ func (e *env) apply(s Step) ops.Res {
 				return
 			}
 			res.Err = hackpadfs.TruncateFile(f, int64(s.N))
+		case "hchmod":
+			if f == nil {
+				return
+			}
+			res.Err = hackpadfs.ChmodFile(f, hackpadfs.FileMode(s.Perm))
 		case "hstat":
 			if f == nil {
 				return
@@ -481,6 +494,19 @@ func check(c Case) (string, string, outcome) {
 		for i, s := range c.Steps {
 			setsBefore := e.failedSets()
 			res := e.apply(s)
+			if res.OK() && (s.K == "hchmod" || s.K == "chmod") {
+				// a change of mode that reports success is in the store (whatever failed before it)
+				p := s.P
+				if s.K == "hchmod" {
+					p = e.slotPath[s.Slot]
+					if e.slots[s.Slot] == nil || e.slotSeq[s.Slot] != e.nsSeq {
+						p = "" // no handle, or the namespace changed since it was opened (the path may name something else now)
+					}
+				}
+				if n, ok := e.storeContents()[p]; ok && p != "" && p != "." && n.Perm != s.Perm&0o777 {
+					return base + " success-not-in-store:" + s.K, fmt.Sprintf("store call %d failing: step %d %v reported success, but the store holds %q with mode %o", fault, i, s, p, n.Perm), out
+				}
+			}
 			if res.OK() && e.failedSets() > setsBefore && !strings.HasPrefix(s.K, "hclose") {
 				return base + " swallowed:set:" + s.K, fmt.Sprintf("store call %d failing (outage %d): the store rejected a Set during step %d %v, but the operation reported success", fault, c.Outage, i, s), out
 			}
@@ -566,7 +592,7 @@ func genSteps(t *rapid.T) []Step {
 		}
 		var s Step
 		if rapid.IntRange(0, 9).Draw(t, "handle") < 3 {
-			s.K = rapid.SampledFrom([]string{"hopen", "hopen", "hread", "hwrite", "hwrite", "htrunc", "hstat", "hreaddir", "hclose"}).Draw(t, "hk")
+			s.K = rapid.SampledFrom([]string{"hopen", "hopen", "hread", "hwrite", "hwrite", "htrunc", "hchmod", "hchmod", "hstat", "hreaddir", "hclose"}).Draw(t, "hk")
 			s.Slot = rapid.IntRange(0, 1).Draw(t, "slot")
 			switch s.K {
 			case "hopen":
@@ -574,6 +600,8 @@ func genSteps(t *rapid.T) []Step {
 				s.Flag = gen.Flags(t, "flag")
 			case "hwrite":
 				s.Data = gen.Payload(t, 6, "data")
+			case "hchmod":
+				s.Perm = uint32(rapid.SampledFrom([]int{0o600, 0o644, 0o600}).Draw(t, "hperm")) // few values: repeats happen
 			case "htrunc":
 				s.N = rapid.IntRange(0, 8).Draw(t, "size")
 			}
@@ -582,6 +610,11 @@ func genSteps(t *rapid.T) []Step {
 		}
 		_ = scratch.apply(s)
 		steps = append(steps, s)
+		if (s.K == "hchmod" || s.K == "htrunc" || s.K == "chmod") && rapid.Bool().Draw(t, "again") {
+			// the same call once more: what a caller does after the first attempt failed
+			_ = scratch.apply(s)
+			steps = append(steps, s)
+		}
 	}
 	return steps
 }
